@@ -14,7 +14,7 @@ RULE = ("a case is a history of 2-40 steps {new KeyFile object, enter, exit (pro
         "from a file state in {absent, valid, empty, 1/16/31/33/64 bytes, parent directory missing, parent is a "
         "regular file}; checked against a 20-line model (file bytes; per object: depth, key); non-trivial = at least "
         "one enter and one encrypt/decrypt were judged; distinct = distinct (initial state, step list)")
-REQUIRED = ("key_file_names_with_percent_sign", "key_file_named_through_symlink_and_dotdot", "key_file_named_relative_to_home", "key_file_replaced_with_preserved_timestamps", "exits_with_exception", "enter_ok_judged", "enter_rejected_judged", "key_measured_from_xor", "outside_context_rejected",
+REQUIRED = ("key_file_names_a_shell_would_expand", "key_file_names_with_percent_sign", "key_file_named_through_symlink_and_dotdot", "key_file_named_relative_to_home", "key_file_replaced_with_preserved_timestamps", "exits_with_exception", "enter_ok_judged", "enter_rejected_judged", "key_measured_from_xor", "outside_context_rejected",
             "retention_scans", "created_once_checked", "nested_enter_judged", "reenter_after_rejection_judged")
 ASSUMPTIONS = ["the key in use is measured as xor_ciphertext XOR known_plaintext (48 bytes) and by decrypting AES "
                "output with the pure-Python oracle under the expected key",
@@ -103,7 +103,8 @@ def generate(rng, ctx):
             # how the key file is named to the library: absolute, or relative to the home directory
             "pathform": rng.choice(["abs", "abs", "home", "symlink-dotdot"]) if where == "ok" else "abs",
             # file names with characters that mean something to string formatting, shells, URLs
-            "fname": rng.choice(["app.key", "app.key", "app%20key.bin", "100%.key", "k%s.key", "key {0}.bin", "cl\u00e9.key", "a b.key"])}
+            "fname": rng.choice(["app.key", "app.key", "app%20key.bin", "100%.key", "k%s.key", "key {0}.bin", "cl\u00e9.key", "a b.key",
+                                "app-$VFSTAGE.key", "${VFSTAGE}.key"])}
 
 
 def _scan(obj, key, depth=0, seen=None):
@@ -167,6 +168,9 @@ def run(case, ctx, res):
     fname = case.get("fname", "app.key")
     if "%" in fname:
         res.count("key_file_names_with_percent_sign")
+    if "$" in fname:
+        os.environ["VFSTAGE"] = "prod"  # the variable exists; the name is still to be taken literally
+        res.count("key_file_names_a_shell_would_expand")
     if where == "ok" and case.get("pathform") == "home":
         hd = os.path.join(os.path.expanduser("~"), "c07-" + os.path.basename(ctx.dir))
         os.makedirs(hd, exist_ok=True)
